@@ -249,3 +249,33 @@ fn d9_idat_length_overlapping_previous_stream() {
     f.extend_from_slice(&[0u8; 16]);
     roundtrip_container(&f);
 }
+
+/// D10 (found by C01/A1t, terminator discipline): an empty IDAT chunk between two non-empty ones.  The chunk-size list is
+/// serialised as varints terminated by 0, so a 0 element ends the list early when it is read back: expand returns Ok,
+/// recreate reads the rest of the list as zlib header / lengths and fails or writes different bytes.
+#[test]
+fn d10_empty_idat_chunk_in_the_middle() {
+    let data: Vec<u8> = (0..1500u32).map(|i| (i * 31 + 7) as u8).collect();
+    let mut z = vec![0x78u8, 0x01];
+    z.extend(stored_deflate(&data));
+    // adler32
+    let (mut a, mut b) = (1u32, 0u32);
+    for &x in &data {
+        a = (a + x as u32) % 65521;
+        b = (b + a) % 65521;
+    }
+    z.extend_from_slice(&((b << 16) | a).to_be_bytes());
+    for empties in [vec![600usize, 0], vec![0usize, 700], vec![500, 0, 0, 300]] {
+        let mut f = vec![0x89, b'P', b'N', b'G', 0x0d, 0x0a, 0x1a, 0x0a];
+        f.extend(png_chunk(b"IHDR", &[0, 0, 0, 32, 0, 0, 0, 32, 8, 2, 0, 0, 0]));
+        let mut rest = &z[..];
+        for &n in &empties {
+            let (x, y) = rest.split_at(n);
+            f.extend(png_chunk(b"IDAT", x));
+            rest = y;
+        }
+        f.extend(png_chunk(b"IDAT", rest));
+        f.extend(png_chunk(b"IEND", &[]));
+        roundtrip_container(&f);
+    }
+}
